@@ -124,6 +124,32 @@ func genMesh(seed uint64, tier string) *Plan {
 			add("graft", i, t)
 			add("graft", i, t)
 		}
+		if r.chance(0.06) {
+			// congestion: the peer stops reading, announcements fill its outbound queue, so that the
+			// next GRAFT/PRUNE for it is dropped and has to be retried
+			add("stall", i, 1)
+			for c := r.rng(2, 5); c > 0; c-- {
+				add("node-relay", int64(nt-1))
+				add("node-relay-cancel", int64(nt-1))
+			}
+			switch r.intn(3) {
+			case 0:
+				add("node-sub", t)
+			case 1:
+				add("node-cancel", int64(r.intn(3)))
+				add("node-sub", t)
+			default:
+				add("adv", int64(r.rng(1000, 2100)))
+			}
+			if r.chance(0.6) {
+				add("prune", i, t, int64(r.intn(2)*r.rng(1, 40)))
+			}
+			if r.chance(0.5) {
+				add("adv", int64(r.rng(900, 2100)))
+			}
+			add("stall", i, 0)
+			add("adv", int64(r.rng(900, 2100)))
+		}
 	}
 	add("adv", int64(r.rng(1000, 4000)))
 	return p
